@@ -424,7 +424,10 @@ class OrchModel(Model):
     def enabled(self, op: tuple) -> bool:
         k = op[0]
         if k == "reg":
-            return all(i not in self.inv for i in op[1:])
+            # an id is (re-)registered only while unknown, and never while the wait graph still holds an edge
+            # of its previous life as a waiter (probe/orch/reused-id-still-a-waiter)
+            return all(i not in self.inv for i in op[1:]) and (
+                self.cfg.get("allow_waiter_reuse") or not any(w in op[1:] for w, _ in self.edges))
         if k in ("retry", "idx", "setup"):
             return op[1] in self.inv
         if k == "wait":
@@ -642,6 +645,9 @@ _orch("probe/orch/service-window-before-heartbeat", [("rec", "r1", 5), ("hb", "r
 _orch("probe/orch/page-order-registration-time", [("reg", 0), ("reg", 1), ("st", 0, "PENDING", "r1"), ("st", 1, "PENDING", "r1")],
       3, 3, universe="U1", page_by_registration=True)
 _orch("probe/orch/filter-id-not-registered", [("reg", 0), ("reg", 1)], 2, 2, universe="U1", all_ids=True)
+_orch("probe/orch/reused-id-still-a-waiter", [("apurge",), ("reg", 0), ("wait", 1, (0,))], 3, 3, universe="U1", timed=True, allow_waiter_reuse=True,
+      seeds={"waiter-finished": [("reg", 0), ("reg", 1), ("wait", 0, (1,)), ("st", 0, "PENDING", "r1"), ("st", 0, "RUNNING", "r1"),
+                                 ("st", 0, "SUCCESS", "r1"), ("adv", D - 2 * U)]})
 _orch("probe/orch/purge-setup-twice", [("setup", 0), ("adv", D - 3 * U), ("adv", U), ("apurge",)], 4, 4, universe="U1", timed=True,
       seeds={"registered": [("reg", 0)]})
 
@@ -884,9 +890,7 @@ class SbModel(Model):
         self.app_info = True
 
     def enabled(self, op: tuple) -> bool:
-        if op[0] == "purge" and not self.cfg.get("free_purge"):
-            return not self.wfdata and not self.ctx_store
-        return True
+        return True  # purge is free everywhere since MemStateBackend.purge clears workflow data / runner contexts
 
     def _store_ctx(self, r: str) -> None:
         if r not in self.ctx_cache:
@@ -931,6 +935,7 @@ class SbModel(Model):
             self.wfruns.clear()
             self.wfsubs.clear()
             self.ctx_store.clear()
+            self.ctx_cache.clear()  # the process-local runner-context cache is purged too (fix 267608d)
             self.app_info = False
         else:
             raise ValueError(op)
@@ -1575,7 +1580,7 @@ def _unit(item: tuple) -> Partial:
         impls[0].peer = model
     init = list(cfg["seeds"][seed]) + ([first] if first is not None else [])
     signal.signal(signal.SIGALRM, _watchdog)
-    signal.alarm(2400)
+    signal.alarm(7200)
     try:
         st = bfs.explore(p, impls, model, _alphabet(cfg, model_cls), depth, tag=name, init_history=init)
     finally:
@@ -1649,7 +1654,7 @@ ASSUMPTIONS = [
     "auto-purge set-up (probe), release_waiters on a non-final invocation, an atomic-service window of a runner without heartbeat (probe), "
     "auto_purge with two or more purgeable invocations (probe: SQLite raises), store_last_cron_execution for an unregistered "
     "condition (probe), registering one trigger definition twice without the documented clean-up (probe), filter_by_status over ids "
-    "that are not registered (probe), purge of the state backend after workflow data / runner contexts were stored (probes + sb/purge-rest)",
+    "that are not registered (probe), re-registering an auto-purged id that still is a waiter in the wait graph (probe), purge of the state backend after workflow data / runner contexts were stored (probes + sb/purge-rest)",
     "timed configurations: frozen dyadic clock (unit 2^-6 s, all three limits 0.9375 s, one time line per implementation, every "
     "operation takes one unit) so that both sides of 'age >= limit' / 'age > timeout' are states of the search; untimed configurations: "
     "the clock ticks 1 us per read, limits are the defaults",
